@@ -68,12 +68,14 @@ def opsCodec : Handler := fun st toks =>
   | "note" :: _ => some (st, "ok")      -- generator annotations (shape / corruption labels), echoed by both sides
   | ["ser", d] => do
     let (_, sl) ← b? d
+    let safe := safeMark "ser" (decide (Bitmap.Safe_serialize sl.m))
     match Bitmap.serializeM st.dbg sl.m with
-    | some bytes => pure (st, specMark (showBytes bytes) (showBytes (Spec.encode sl.s)))
-    | none => pure (st, specMark "panic" (showBytes (Spec.encode sl.s)))
+    | some bytes => pure (st, specMark (showBytes bytes) (showBytes (Spec.encode sl.s)) ++ safe)
+    | none => pure (st, specMark "panic" (showBytes (Spec.encode sl.s)) ++ safe)
   | ["ser_size", d] => do
     let (_, sl) ← b? d
-    pure (st, specMark (toString (Bitmap.serializedSize sl.m)) (toString (Spec.encode sl.s).length))
+    pure (st, specMark (toString (Bitmap.serializedSize sl.m)) (toString (Spec.encode sl.s).length)
+      ++ safeMark "ser_size" (decide (Bitmap.Safe_serializedSize sl.m)))
   | ["spec_encode", d] => do
     let (_, sl) ← b? d
     pure (st, showBytes (Spec.encode sl.s))
